@@ -787,6 +787,19 @@ def _round5_id(vals):
     return all(float(np.round(v, 5)) == v for v in vals)
 
 
+def _dyadic(vals):
+    """all values are multiples of 2**-10 below 2**20: sums and differences of two of them are exact in binary64"""
+    return all(abs(v) < 2.0 ** 20 and v * 1024.0 == math.floor(v * 1024.0) for v in vals)
+
+
+def _ev_near(ds, w, vals):
+    """some distance is within 1e-9 of the window and the arithmetic deciding `|ref - est| <= w` is not exact: est - w and
+    est + w round, so exchanging the roles (or moving the time origin) may decide such a pair differently"""
+    if _dyadic(list(vals) + [w]):
+        return False
+    return any(abs(d - w) < 1e-9 for d in ds)
+
+
 def probe_events(ctx, kind, ref, est, w, beta=1.0):
     """kind in beat | onset | detection | detection_trim; ref / est: event times or interval rows (floats)"""
     import mir_eval as M
@@ -811,7 +824,7 @@ def probe_events(ctx, kind, ref, est, w, beta=1.0):
             continue
         inp = _ev_inp(kind, ref, est, x, beta)
         rel_range(ctx, fn, [n for n, v in zip(names, sc) if v is not None], [v for v in sc if v is not None], inp)
-        sw = _ev_call(M, kind, est, ref, x, beta)
+        sw = _ev_call(M, kind, est, ref, x, beta) if not _ev_near(ds, x, flat(ref) + flat(est)) else None
         if sw is not None:
             if sc[0] is not None and not (close(sc[0], sw[1]) and close(sc[1], sw[0])):
                 ctx.add('C06', fn, 'swapping reference and estimate exchanges precision and recall', inp, {'fwd': list(sc), 'swapped': list(sw)})
@@ -839,7 +852,7 @@ def probe_events(ctx, kind, ref, est, w, beta=1.0):
     vals = flat(ref) + flat(est)
     ivl = kind.startswith('detection')
     for s in SHIFTS:
-        if not exact_add(vals, s) or (ivl and not (_round5_id(vals) and _round5_id([v + s for v in vals]))):
+        if not exact_add(vals, s) or (ivl and not (_round5_id(vals) and _round5_id([v + s for v in vals]))) or _ev_near(ds, w, vals + [s]):
             continue
         sh = (lambda x: [[a + s, b + s] for a, b in x]) if ivl else (lambda x: [v + s for v in x])
         sc = _ev_call(M, kind, sh(ref), sh(est), w, beta)
@@ -1094,6 +1107,461 @@ def probe_key_pair(ctx, r, e):
 
 
 # ======================================================================================================================
+# melody  (units melody_metrics: voicing / cent arrays; melody_resample: Hz series through to_cent_voicing / evaluate)
+# ======================================================================================================================
+def probe_melody_arrays(ctx, rv, rc, ev, ec, tol):
+    from mir_eval import melody as M
+    from harness.oracles import melody as O
+    n = len(rv)
+    if not (len(rc) == len(ev) == len(ec) == n and n > 0 and tol > 0):
+        return
+    if not all(isinstance(x, (int, float, bool)) and math.isfinite(float(x)) for l in (rv, rc, ev, ec) for x in l):
+        return
+    rv, ev = [float(x) for x in rv], [float(x) for x in ev]
+    if not all(0 <= x <= 1 for x in rv + ev):
+        return
+    if call(O._five, M, rv, rc, ev, ec, tol)[0] != 'ok':
+        return
+    crit = []
+    for a, b in zip(rc, ec):
+        if a != 0 and b != 0:
+            d = abs(a - b)
+            crit += [d, abs(d - 1200.0 * math.floor(d / 1200.0 + 0.5))]
+    tols = ladder(tol, (12.5, 25.0, 50.0, 100.0, 600.0), crit)
+    for t in tols:
+        ctx.take(O.check_definitions(M, rv, rc, ev, ec, t))       # range (C01), definition (C04), raw pitch <= raw chroma (C07)
+    for t1, t2 in zip(tols, tols[1:]):
+        ctx.take(O.check_tol_mono(M, rv, rc, ev, ec, t1, t2))
+    for v, c in ((rv, rc), (ev, ec)):
+        # a perfect estimate: binary voicing, a voiced frame, and no voiced frame at cent value 0 (0 marks "no pitch")
+        if all(x in (0.0, 1.0) for x in v) and any(x > 0 for x in v) and not any(x > 0 and y == 0 for x, y in zip(v, c)):
+            ctx.take(O.check_self(M, v, c, tol))
+    for c in (100.0, -37.25, 1200.0, 0.25, 2400.0):
+        ctx.take(O.check_shift(M, rv, rc, ev, ec, c, tol))
+    for k in (1, -1, 2, -3):
+        ctx.take(O.check_octave(M, rv, rc, ev, ec, k, tol))
+
+
+def probe_melody_hz(ctx, rt, rf, et, ef, tol, hop):
+    from mir_eval import melody as M
+    from harness.oracles import melody as O
+    if not (len(rt) == len(rf) and len(et) == len(ef) and len(rt) >= 2 and len(et) >= 2 and tol > 0):
+        return
+    if not all(isinstance(x, (int, float)) and math.isfinite(x) for l in (rt, rf, et, ef) for x in l):
+        return
+    if not (all(a < b for a, b in zip(rt, rt[1:])) and all(a < b for a, b in zip(et, et[1:])) and rt[0] >= 0 and et[0] >= 0):
+        return
+    if any(0 < abs(x) <= 40.0 for x in list(rf) + list(ef)):
+        return        # base_frequency (10 Hz, cent value 0 = "no pitch") within reach of the factors used below: listed finding C02
+    kw = {'cent_tolerance': tol}
+    if hop is not None:
+        if not hop > 0:
+            return
+        kw['hop'] = hop
+    if call(O._evaluate, M, rt, rf, et, ef, **kw)[0] != 'ok':
+        return
+    ctx.take(O.check_evaluate_range(M, rt, rf, et, ef, **kw))
+    for t, f in ((rt, rf), (et, ef)):
+        if all(abs(x) != 10.0 for x in f):
+            ctx.take(call(O.check_evaluate_self, M, t, f, **kw)[1] if call(O.check_evaluate_self, M, t, f, **kw)[0] == 'ok' else None)
+    if all(x >= 0 for x in ef):
+        r = call(O.check_sign_flip, M, rt, rf, et, ef, **kw)
+        ctx.take(r[1] if r[0] == 'ok' else None)
+    for ratio in (2.0, 0.5, 1.25, 1.0594630943592953):
+        r = call(O.check_transpose, M, rt, rf, et, ef, ratio, **kw)
+        ctx.take(r[1] if r[0] == 'ok' else None)
+    for k in (1, -1, 2):
+        r = call(O.check_octave_hz, M, rt, rf, et, ef, k, **kw)
+        ctx.take(r[1] if r[0] == 'ok' else None)
+
+
+# ======================================================================================================================
+# alignment, pattern  (units alignment_scores, pattern_scores)
+# ======================================================================================================================
+def probe_alignment(ctx, ref, est, w, dur):
+    from mir_eval import alignment as A
+    from harness.oracles import pattern_alignment_tempo as O
+    np = _np()
+    if not (len(ref) == len(est) and len(ref) >= 1 and w >= 0):
+        return
+    if call(A.validate, np.array(ref, dtype=float), np.array(est, dtype=float))[0] != 'ok':
+        return
+    dev = [abs(a - b) for a, b in zip(ref, est)]
+    wins = ladder(w, (0.0, 0.25, 0.3, 0.5, 1.0, 2.0), dev)
+    d = dur if isinstance(dur, (int, float)) and dur > 0 and dur >= max(ref + est) else None
+    for w1, w2 in zip(wins, wins[1:]):
+        ctx.take(O.check_alignment(A, ref, est, w1, w2, d))
+    for side in (ref, est):
+        ctx.take(O.check_alignment_self(A, side, w, d if d is not None and d >= max(side) else None))
+    for s in (0.25, 1.0, 7.75, 100.5):
+        if exact_add(ref + est, s):
+            ctx.take(O.check_pcs_shift(A, ref, est, s))
+
+
+def probe_pattern(ctx, ref, est, tol, thres, n):
+    from mir_eval import pattern as P
+    from harness.oracles import pattern_alignment_tempo as O
+    if call(P.validate, ref, est)[0] != 'ok' or not (O._wellformed(ref) and O._wellformed(est)):
+        return
+    if not (0 < thres <= 1 and tol > 0 and isinstance(n, int) and n >= 0):
+        return
+    for th in sorted(set([thres, 0.25, 0.5, 0.75, 1.0])):
+        ctx.take(O.check_pattern_range(P, ref, est, th, n, tol))
+        ctx.take(O.check_pattern_swap(P, ref, est, th))
+        ctx.take(O.check_pattern_def(P, ref, est, th))
+    for side in (ref, est):
+        if not O._has_dup(side):
+            ctx.take(O.check_pattern_self(P, side, thres, tol))
+    onsets = [float(x[0]) for ps in (ref, est) for p in ps for o in p for x in o]
+    for d in (1.0, 0.25, 7.75, 100.5):
+        if exact_add(onsets, d):
+            ctx.take(O.check_pattern_shift(P, ref, est, d, thres, tol))
+    for pr in perms(len(ref), ctx.rng):
+        ctx.take(O.check_pattern_ref_perm(P, ref, est, pr, thres, tol))
+    for k in sorted(set([n, 1, 2, 5])):
+        ctx.take(O.check_first_n(P, ref, est, k))
+
+
+# ======================================================================================================================
+# segment labelling scores  (units seg_cluster_q, index_labels), hierarchy (hier_measures, hier_gauc)
+# ======================================================================================================================
+SEG_FN = {'pairwise': 'segment.pairwise', 'rand': 'segment.rand_index', 'ari': 'segment.ari', 'mi': 'segment.mutual_information[MI]',
+          'ami': 'segment.mutual_information[AMI]', 'nmi': 'segment.mutual_information[NMI]', 'nce': 'segment.nce', 'v': 'segment.vmeasure'}
+
+
+def _seg_scores(S, rb, rl, eb, el, fs, beta):
+    from harness.oracles import segment_cluster as O
+    r = call(O.implementation_scores, S, rb, rl, eb, el, fs, beta)
+    if r[0] != 'ok':
+        return None
+    out = {}
+    for k, v in r[1].items():
+        out[k] = [float(x) for x in v] if isinstance(v, tuple) else [float(v)]
+    return out
+
+
+def probe_segments(ctx, rb, rl, eb, el, beta, fs=0.25):
+    """rb / eb: boundaries of contiguous annotations starting at 0 with the same end; rl / el: labels"""
+    from mir_eval import segment as S
+    from harness.oracles import segment_cluster as O, recut as RC
+    if not (len(rb) == len(rl) + 1 and len(eb) == len(el) + 1 and len(rl) >= 1 and len(el) >= 1 and beta > 0):
+        return
+    if not (all(a < b for a, b in zip(rb, rb[1:])) and all(a < b for a, b in zip(eb, eb[1:])) and rb[0] == 0 and eb[0] == 0 and rb[-1] == eb[-1]):
+        return
+    if not all(isinstance(l, str) for l in list(rl) + list(el)):
+        return
+    rb, eb = [float(x) for x in rb], [float(x) for x in eb]
+    fr, fe = O.frames_of(rb, rl, fs), O.frames_of(eb, el, fs)
+    if len(fr) != len(fe) or None in fr or None in fe or len(fr) < 2:
+        return
+    got = _seg_scores(S, rb, rl, eb, el, fs, beta)
+    if got is None:
+        return
+    inp = {'ref_bounds': rb, 'ref_labels': list(rl), 'est_bounds': eb, 'est_labels': list(el), 'frame_size': fs, 'beta': beta}
+    # all C16 clauses (and the C01 / C02 rows with the listed degenerate conventions) through the existing oracle
+    ctx.take(O.check_annotations(S, rb, list(rl), eb, list(el), fs, beta, strict=False))
+    tolk = lambda k: 1e-6 if k == 'ami' else EPS
+    # C01: F-measures over a ladder of beta: F lies between precision and recall
+    for b in ladder(beta, (0.25, 0.5, 0.58, 1.0, 1.7, 2.0)):
+        g = got if b == beta else _seg_scores(S, rb, rl, eb, el, fs, b)
+        if g is None:
+            continue
+        for k in ('pairwise', 'nce', 'v'):
+            p, r, f = g[k]
+            if in01(p) and in01(r) and not in01(f):
+                ctx.add('C01', SEG_FN[k], 'F-measure is finite and in [0, 1] (it lies between precision and recall)', dict(inp, beta=b), g[k])
+    # C06
+    sw = _seg_scores(S, eb, el, rb, rl, fs, beta)
+    if sw is not None:
+        for k in ('pairwise', 'nce', 'v'):
+            (p, r, f), (p2, r2, f2) = got[k], sw[k]
+            if not (close(p, r2) and close(r, p2)) or (beta == 1.0 and not close(f, f2)):
+                ctx.add('C06', SEG_FN[k], 'swapping reference and estimate exchanges %s (and keeps F for beta = 1)' % ('precision and recall' if k == 'pairwise' else 'over- and under-segmentation'),
+                        inp, {'fwd': got[k], 'swapped': sw[k]})
+        for k in ('rand', 'ari', 'mi', 'nmi', 'ami'):
+            if not close(got[k][0], sw[k][0], tolk(k)):
+                ctx.add('C06', SEG_FN[k], 'swapping reference and estimate leaves the symmetric score unchanged', inp, {'fwd': got[k], 'swapped': sw[k]})
+    # C08: label names (a bijection that reverses the alphabetical order, within each annotation independently)
+    def rename(labels, pre):
+        names = sorted(set(l.lower() for l in labels))
+        m = {nm: '%s%03d' % (pre, 900 - i) for i, nm in enumerate(names)}
+        return [m[l.lower()] for l in labels]
+    alt = _seg_scores(S, rb, rename(rl, 'q'), eb, rename(el, 'z'), fs, beta)
+    if alt is not None:
+        for k in SEG_FN:
+            if not allclose(got[k], alt[k], tolk(k)):
+                ctx.add('C08', SEG_FN[k], 'renaming the segment labels by a bijection leaves the score unchanged',
+                        dict(inp, renamed_ref_labels=rename(rl, 'q'), renamed_est_labels=rename(el, 'z')), {'orig': got[k], 'renamed': alt[k]})
+    # C12: every interval cut in two at its midpoint (same label)
+    def cut(b, l):
+        nb, nl = [b[0]], []
+        for (a, c), lab in zip(zip(b, b[1:]), l):
+            nb += [(a + c) / 2.0, c]
+            nl += [lab, lab]
+        return nb, nl
+    rb2, rl2 = cut(rb, rl)
+    eb2, el2 = cut(eb, el)
+    for (b1, l1, b2, l2, tag) in ((rb2, rl2, eb, el, 'reference'), (rb, rl, eb2, el2, 'estimate'), (rb2, rl2, eb2, el2, 'both')):
+        c = _seg_scores(S, b1, l1, b2, l2, fs, beta)
+        if c is not None:
+            for k in SEG_FN:
+                if not allclose(got[k], c[k], tolk(k)):
+                    ctx.add('C12', SEG_FN[k], 're-cut: splitting every interval of the %s in two pieces with the same label leaves the frame-based score unchanged' % tag,
+                            dict(inp, recut_ref_bounds=b1, recut_ref_labels=l1, recut_est_bounds=b2, recut_est_labels=l2), {'orig': got[k], 'recut': c[k]})
+
+
+def _hier_ok(h):
+    return isinstance(h, list) and len(h) >= 1 and all(isinstance(l, list) and len(l) >= 1 and all(len(r) == 2 and r[0] < r[1] for r in l) for l in h)
+
+
+def probe_hierarchy(ctx, kind, ref, rl, est, el, tr, w, fs, beta):
+    """kind 'tm': tmeasure(ref, est, transitive=tr, window=w, frame_size=fs); kind 'lm': lmeasure(ref, rl, est, el, frame_size=fs)"""
+    from mir_eval import hierarchy as H
+    from harness.oracles import hierarchy as O, recut as RC
+    if not (_hier_ok(ref) and _hier_ok(est) and fs > 0 and beta > 0):
+        return
+    span = max(r[1] for l in ref + est for r in l) - min(r[0] for l in ref + est for r in l)
+    nfr = span / fs
+    if kind == 'tm':
+        f = lambda a, b, bb=beta: call(H.tmeasure, O.arr(a), O.arr(b), transitive=tr, window=w, frame_size=fs, beta=bb)
+    else:
+        if not (len(rl) == len(ref) and len(el) == len(est) and all(len(a) == len(b) for a, b in zip(rl, ref)) and all(len(a) == len(b) for a, b in zip(el, est))):
+            return
+        f = lambda a, b, bb=beta, la=rl, lb=el: call(H.lmeasure, O.arr(a), la, O.arr(b), lb, frame_size=fs, beta=bb)
+    base = f(ref, est)
+    if base[0] != 'ok':
+        return
+    base = vec(base[1])
+    fn = 'hierarchy.tmeasure' if kind == 'tm' else 'hierarchy.lmeasure'
+    inp = {'ref': ref, 'est': est, 'frame_size': fs, 'beta': beta}
+    inp.update({'transitive': tr, 'window': w} if kind == 'tm' else {'ref_labels': rl, 'est_labels': el})
+    # C01 over a ladder of beta
+    for b in ladder(beta, (0.25, 0.5, 0.58, 1.0, 1.7, 2.0)):
+        r = f(ref, est, b)
+        if r[0] == 'ok':
+            rel_range(ctx, fn, ('precision', 'recall', 'f_measure'), vec(r[1]), dict(inp, beta=b))
+    # C17 / C04: the triplet definition by brute force (small inputs only)
+    if nfr <= 24:
+        if kind == 'tm':
+            ctx.take(O.check_tmeasure(H, ref, est, tr, w, fs, beta))
+        else:
+            ctx.take(O.check_lmeasure(H, ref, rl, est, el, fs, beta))
+    # C06
+    sw = f(est, ref) if kind == 'tm' else f(est, ref, beta, el, rl)
+    if sw[0] == 'ok':
+        s2 = vec(sw[1])
+        if not (close(base[0], s2[1]) and close(base[1], s2[0])):
+            ctx.add('C06', fn, 'swapping reference and estimate exchanges precision and recall', inp, {'fwd': base, 'swapped': s2})
+        elif beta == 1.0 and not close(base[2], s2[2]):
+            ctx.add('C06', fn, 'swapping reference and estimate keeps F (beta = 1)', inp, {'fwd': base, 'swapped': s2})
+    # C02 (small inputs: the expected value, 1 or 0 without a reference triple, is computed by brute force)
+    if nfr <= 24:
+        for hier, labs in ((ref, rl), (est, el)):
+            if kind == 'tm':
+                labs = [['a'] * len(l) for l in hier]
+            r = call(O.check_self, H, hier, labs, bool(tr), w if kind == 'tm' else None, fs)
+            if r[0] == 'ok' and r[1]:
+                if kind == 'tm' and r[1]['function'] != 'hierarchy.tmeasure':
+                    continue
+                ctx.take(r[1])
+    if kind == 'lm':
+        # C08: label names
+        def rename(L, pre):
+            names = sorted(set(x.lower() for l in L for x in l))
+            m = {nm: '%s%03d' % (pre, 900 - i) for i, nm in enumerate(names)}
+            return [[m[x.lower()] for x in l] for l in L]
+        if all(isinstance(x, str) for l in rl + el for x in l):
+            r = f(ref, est, beta, rename(rl, 'q'), rename(el, 'z'))
+            if r[0] == 'ok' and not allclose(base, vec(r[1])):
+                ctx.add('C08', fn, 'renaming the segment labels by a bijection leaves the score unchanged', dict(inp, renamed_ref_labels=rename(rl, 'q'), renamed_est_labels=rename(el, 'z')),
+                        {'orig': base, 'renamed': vec(r[1])})
+        # C12: one segment cut in two with the same label
+        for _ in range(4):
+            c1, c2 = RC.cut_level(ctx.rng, ref, rl), RC.cut_level(ctx.rng, est, el)
+            if c1 and c2:
+                r = f(c1[0], c2[0], beta, c1[1], c2[1])
+                if r[0] == 'ok' and not allclose(base, vec(r[1])):
+                    ctx.add('C12', fn, 're-cut: cutting a segment in two pieces with the same label leaves the L-measure unchanged',
+                            dict(inp, recut_ref=c1[0], recut_ref_labels=c1[1], recut_est=c2[0], recut_est_labels=c2[1]), {'orig': base, 'recut': vec(r[1])})
+
+
+def probe_gauc(ctx, R, E, tr, w):
+    from mir_eval import hierarchy as H
+    from harness.oracles import hierarchy as O
+    n = len(R)
+    if not (n >= 1 and len(E) == n and all(len(x) == n for x in R) and all(len(x) == n for x in E) and n <= 16):
+        return
+    if w is not None and not (isinstance(w, int) and w >= 1):
+        return
+    if call(H._gauc, O.csr(R), O.csr(E), tr, w)[0] != 'ok':
+        return
+    ctx.take(O.check_gauc(H, R, E, tr, w))
+
+
+# ======================================================================================================================
+# chord scoring  (units weighted_accuracy, chord_evaluate, chord_segmentation)
+# ======================================================================================================================
+def probe_weighted_accuracy(ctx, c, w):
+    from mir_eval import chord as C
+    from harness.oracles import key_chordscore as OK, recut as RC
+    np = _np()
+    if not (len(c) == len(w) and len(c) >= 1 and all(x in (1, 0, -1) for x in c) and all(isinstance(x, (int, float)) and math.isfinite(x) and x >= 0 for x in w)):
+        return
+    if not any(x >= 0 and y > 0 for x, y in zip(c, w)):
+        return                       # no comparable weight: outside C12 (weights are durations of valid intervals)
+    if call(C.weighted_accuracy, np.array(c, dtype=float), np.array(w, dtype=float))[0] != 'ok':
+        return
+    ctx.take(OK.check_wa_value(C, list(c), list(w)))
+    for k in (2.0, 0.5, 3.0, 1 / 1024., 1024.0, 0.1):
+        ctx.take(RC.check_weighted_accuracy(C, list(c), list(w), k))
+    for i in range(min(len(c), 6)):
+        ctx.take(OK.check_wa_split(C, list(c), list(w), i, w[i] / 2.0))
+        if c[i] < 0:
+            ctx.take(OK.check_wa_ignored(C, list(c), list(w), i, w[i] + 1.0))
+
+
+def _chord_eval(C, ri, rl, ei, el):
+    np = _np()
+    A = lambda iv: np.array(iv, dtype=float).reshape(-1, 2)
+    r = call(C.evaluate, A(ri), list(rl), A(ei), list(el))
+    if r[0] != 'ok' or not isinstance(r[1], dict):
+        return None
+    return {k: float(v) for k, v in r[1].items()}
+
+
+def probe_chord_annotations(ctx, ri, rl, ei, el):
+    from mir_eval import chord as C
+    from harness.oracles import key_chordscore as OK, recut as RC
+    np = _np()
+    if not (len(ri) == len(rl) >= 1 and len(ei) == len(el) >= 1):
+        return
+    ok_iv = lambda iv: all(len(r) == 2 and 0 <= r[0] < r[1] for r in iv) and all(a[1] <= b[0] for a, b in zip(iv, iv[1:]))
+    if not (ok_iv(ri) and ok_iv(ei)) or not all(isinstance(x, str) for x in list(rl) + list(el)):
+        return
+    if any(call(C.encode, x)[0] != 'ok' for x in list(rl) + list(el)):
+        return
+    base = _chord_eval(C, ri, rl, ei, el)
+    if base is None:
+        return
+    inp = {'ref_intervals': ri, 'ref_labels': list(rl), 'est_intervals': ei, 'est_labels': list(el)}
+    keys = list(base)
+    rel_range(ctx, 'chord.evaluate', keys, [base[k] for k in keys], inp)
+    # C02: each annotation against a copy of itself
+    for iv, lb in ((ri, rl), (ei, el)):
+        s = _chord_eval(C, iv, lb, [list(r) for r in iv], [str(x) for x in lb])
+        if s is None:
+            continue
+        for name in CHORD_RULES:
+            if name not in s:
+                continue
+            cm = [call(lambda x=x: float(getattr(C, name)([x], [x])[0])) for x in lb]
+            if any(c[0] != 'ok' for c in cm):
+                continue
+            want = 1.0 if any(c[1] == 1.0 for c in cm) else (0.0 if all(c[1] == -1.0 for c in cm) else None)
+            if want is not None and all(c[1] in (1.0, -1.0) for c in cm) and not close(s[name], want):
+                ctx.add('C02', 'chord.evaluate', 'perfect estimate: %s of an annotation against a copy of itself is 1 (0 by convention when nothing is comparable)' % name,
+                        {'intervals': iv, 'labels': list(lb)}, s[name])
+        for name in ('underseg', 'overseg', 'seg'):
+            if name in s and not close(s[name], 1.0):
+                ctx.add('C02', 'chord.evaluate', 'perfect estimate: %s of an annotation against a copy of itself is 1' % name, {'intervals': iv, 'labels': list(lb)}, s[name])
+    # C06: over- and under-segmentation exchange
+    A = lambda iv: np.array(iv, dtype=float).reshape(-1, 2)
+    a, b = call(C.overseg, A(ri), A(ei)), call(C.underseg, A(ei), A(ri))
+    c, d = call(C.underseg, A(ri), A(ei)), call(C.overseg, A(ei), A(ri))
+    if a[0] == b[0] == 'ok' and not close(float(a[1]), float(b[1])):
+        ctx.add('C06', 'chord.overseg', 'swapping reference and estimate exchanges over- and under-segmentation', inp, {'overseg(ref, est)': float(a[1]), 'underseg(est, ref)': float(b[1])})
+    if c[0] == d[0] == 'ok' and not close(float(c[1]), float(d[1])):
+        ctx.add('C06', 'chord.underseg', 'swapping reference and estimate exchanges over- and under-segmentation', inp, {'underseg(ref, est)': float(c[1]), 'overseg(est, ref)': float(d[1])})
+    # C08: exact time shifts
+    vals = [t for r in ri + ei for t in r]
+    for s in (1.0, 0.25, 1 / 64., 7 / 64., 45 / 64., 100.015625):
+        if exact_add(vals, s):
+            sh = _chord_eval(C, [[a + s, b + s] for a, b in ri], rl, [[a + s, b + s] for a, b in ei], el)
+            if sh is not None and not allclose([base[k] for k in keys], [sh.get(k, float('nan')) for k in keys]):
+                ctx.add('C08', 'chord.evaluate', 'adding the same offset to all times leaves every score unchanged', dict(inp, shift=s),
+                        {k: [base[k], sh.get(k)] for k in keys if not close(base[k], sh.get(k, float('nan')))})
+    # C09: joint transposition / respelling of all labels
+    for k in (1, 2, 5, 7, 11):
+        for pick in (0, 1):
+            r2 = [OK.transpose_label(x, k, pick) for x in rl]
+            e2 = [OK.transpose_label(x, k, pick + 1) for x in el]
+            if None in r2 or None in e2:
+                continue
+            t = _chord_eval(C, ri, r2, ei, e2)
+            if t is not None and not allclose([base[k_] for k_ in keys], [t.get(k_, float('nan')) for k_ in keys]):
+                ctx.add('C09', 'chord.evaluate', 'transposing all reference and estimated labels together (any spelling) leaves every score unchanged',
+                        dict(inp, semitones=k, transposed_ref_labels=r2, transposed_est_labels=e2),
+                        {k_: [base[k_], t.get(k_)] for k_ in keys if not close(base[k_], t.get(k_, float('nan')))})
+    # C12: re-cut (every interval at its midpoint; random cuts at boundaries of the other annotation)
+    def mid(iv, lb):
+        oi, ol = [], []
+        for (a, b), l in zip(iv, lb):
+            m = (a + b) / 2.0
+            oi += [[a, m], [m, b]] if a < m < b else [[a, b]]
+            ol += [l, l] if a < m < b else [l]
+        return oi, ol
+    cuts = [(mid(ri, rl), (ei, list(el))), ((ri, list(rl)), mid(ei, el)), (mid(ri, rl), mid(ei, el))]
+    for _ in range(3):
+        cuts.append((RC.recut(ctx.rng, ri, list(rl), other=[t for r in ei for t in r]), RC.recut(ctx.rng, ei, list(el), other=[t for r in ri for t in r])))
+    for (tri, trl), (tei, tel) in cuts:
+        t = _chord_eval(C, tri, trl, tei, tel)
+        if t is not None and not allclose([base[k] for k in keys], [t.get(k, float('nan')) for k in keys]):
+            ctx.add('C12', 'chord.evaluate', 're-cut: splitting intervals into consecutive pieces with the same label changes no score',
+                    dict(inp, recut_ref_intervals=tri, recut_ref_labels=trl, recut_est_intervals=tei, recut_est_labels=tel),
+                    {k: [base[k], t.get(k)] for k in keys if not close(base[k], t.get(k, float('nan')))})
+    ctx.take(RC.check_x_lengthened(C, ri, list(rl), ei, list(el)))
+
+
+# ======================================================================================================================
+# interval helpers of util (units adjust_intervals, merge_intervals, interpolate_intervals, boundaries) and
+# multipitch.resample_multipitch (unit multipitch_resample): the existing C13 / C18 oracles at the point, in the mode that
+# asserts only what is proved for the unchanged tree (the listed C13 findings are not re-reported)
+# ======================================================================================================================
+def _rows_ok(x):
+    return isinstance(x, list) and all(isinstance(r, list) and len(r) == 2 and all(isinstance(t, (int, float)) and math.isfinite(t) for t in r) for r in x)
+
+
+def probe_intervals(ctx, unit, case):
+    from mir_eval import util as U
+    from harness.oracles import intervals as O
+    if unit == 'adjust_intervals':
+        a, b = case['a'], case['b']
+        if case.get('fn') == 'iv' and _rows_ok(case['x']) and len(case['x']) >= 1 and (a is None or b is None or a < b):
+            labels = list(range(1, len(case['x']) + 1)) if case['lab'] else None
+            ctx.take(O.check_adjust(U, [list(r) for r in case['x']], labels, case['a'], case['b'], mode='proved'))
+    elif unit == 'merge_intervals':
+        if _rows_ok(case['x']) and _rows_ok(case['y']):
+            ctx.take(O.check_merge(U, [list(r) for r in case['x']], list(range(1, case['xl'] + 1)), [list(r) for r in case['y']],
+                                   list(range(11, case['yl'] + 11)), mode='proved'))
+    elif unit == 'interpolate_intervals':
+        if not _rows_ok(case['x']) or len(case['x']) != case['nl'] or not O.is_valid(case['x']):
+            return
+        labs = list(range(1, case['nl'] + 1))
+        if case['k'] == 'interp':
+            ctx.take(O.check_interpolate(U, [list(r) for r in case['x']], labs, list(case['ts']), fill=0, mode='proved'))
+        elif case['k'] == 'samples':
+            ctx.take(O.check_samples(U, [list(r) for r in case['x']], labs, case['off'], case['sz'], fill=0))
+    elif unit == 'boundaries':
+        if case['k'] == 'b2i' and all(isinstance(t, (int, float)) and math.isfinite(t) for t in case['b']):
+            ctx.take(O.check_boundaries(U, list(case['b']), 5, mode='proved'))
+        elif case['k'] == 'i2b' and _rows_ok(case['x']) and isinstance(case['q'], int):
+            ctx.take(O.check_contiguous(U, [list(r) for r in case['x']], case['q']))
+
+
+def probe_mp_resample(ctx, times, freqs, targets):
+    from mir_eval import multipitch as mp
+    from harness.oracles import multipitch as O
+    if not (len(times) == len(freqs) and all(a < b for a, b in zip(times, times[1:]))):
+        return
+    if not all(isinstance(t, (int, float)) and math.isfinite(t) for t in list(times) + list(targets)):
+        return
+    np = _np()
+    if call(mp.resample_multipitch, np.array(times, dtype=float), [np.array(f, dtype=float) for f in freqs], np.array(targets, dtype=float))[0] != 'ok':
+        return
+    ctx.take(O.check_resample(mp, list(times), [list(f) for f in freqs], list(targets)))
+
+
+# ======================================================================================================================
 # dispatcher
 # ======================================================================================================================
 LAST = None
@@ -1148,16 +1616,111 @@ def _u_key_score(ctx, case, impl):
     _guard(ctx, probe_key_pair, case[0], case[1])
 
 
+def _u_melody_metrics(ctx, case, impl):
+    _guard(ctx, probe_melody_arrays, case['rv'], case['rc'], case['ev'], case['ec'], case['tol'])
+
+
+def _u_melody_resample(ctx, case, impl):
+    if case.get('k') in ('tcv', 'ev') and case.get('ev') is None and case.get('rr') is None:
+        _guard(ctx, probe_melody_hz, case['rt'], case['rf'], case['et'], case['ef'], case.get('tol') or 50.0, case.get('hop'))
+
+
+def _u_alignment_scores(ctx, case, impl):
+    rs, es, w, dur = case
+    if rs[0] == 'a' and es[0] == 'a':
+        _guard(ctx, probe_alignment, [float(x) for x in rs[1]], [float(x) for x in es[1]], w, dur)
+
+
+def _u_pattern_scores(ctx, case, impl):
+    from harness.units.pattern_scores import as_py
+    ref, est, tol, thres, n = case
+    try:
+        r, e = as_py(ref), as_py(est)
+    except Exception:  # noqa: malformed entries
+        return
+    _guard(ctx, probe_pattern, r, e, tol, thres, n)
+
+
+def _u_seg_cluster_q(ctx, case, impl):
+    if case.get('kind') == 'pub':
+        _guard(ctx, probe_segments, case['rb'], case['rl'], case['eb'], case['el'], case['beta'])
+
+
+def _u_index_labels(ctx, case, impl):
+    # the labels as two segmentations with one-second segments: label names carry no meaning (C08), case is ignored
+    if case.get('kind') == 'il' and not case.get('cs') and len(case['labels']) >= 2 and all(isinstance(x, str) for x in case['labels']):
+        L = list(case['labels'])
+        b = [float(i) for i in range(len(L) + 1)]
+        _guard(ctx, probe_segments, b, L, b, L[::-1], 1.0)
+
+
+def _u_hier_measures(ctx, case, impl):
+    k = case[0]
+    if k == 'tm':
+        _, r, e, tr, w, fs, beta = case
+        _guard(ctx, probe_hierarchy, 'tm', r, None, e, None, tr, w, fs, beta)
+    elif k == 'lm':
+        _, r, lr, e, le, fs, beta = case
+        _guard(ctx, probe_hierarchy, 'lm', r, lr, e, le, True, None, fs, beta)
+
+
+def _u_hier_gauc(ctx, case, impl):
+    r, e, tr, w = case
+    _guard(ctx, probe_gauc, r, e, tr, w)
+
+
+def _u_weighted_accuracy(ctx, case, impl):
+    _guard(ctx, probe_weighted_accuracy, case[0], case[1])
+
+
+def _u_chord_annotations(ctx, case, impl):
+    _guard(ctx, probe_chord_annotations, case['ri'], case['rl'], case['ei'], case['el'])
+    if 'tri' in case and (case['tri'] != case['ri'] or case['tei'] != case['ei']):
+        _guard(ctx, probe_chord_annotations, case['tri'], case['trl'], case['tei'], case['tel'])
+
+
+def _u_beat_ig(ctx, case, impl):
+    P = {'gthr': 0.35, 'gmu': 0.2, 'gsig': 0.2, 'pthr': 0.2, 'cph': 0.175, 'cpe': 0.175, 'csig': 0.04}
+    _guard(ctx, probe_beat, [float(x) for x in case['ref']], [float(x) for x in case['est']], P)
+
+
+def _u_intervals(unit):
+    def f(ctx, case, impl):
+        _guard(ctx, probe_intervals, unit, case)
+    return f
+
+
+def _u_multipitch_resample(ctx, case, impl):
+    _guard(ctx, probe_mp_resample, case['times'], case['freqs'], case['targets'])
+
+
 UNITS = {
+    'adjust_intervals': _u_intervals('adjust_intervals'),
+    'merge_intervals': _u_intervals('merge_intervals'),
+    'interpolate_intervals': _u_intervals('interpolate_intervals'),
+    'boundaries': _u_intervals('boundaries'),
+    'multipitch_resample': _u_multipitch_resample,
+    'alignment_scores': _u_alignment_scores,
+    'beat_ig': _u_beat_ig,
     'beat_q': _u_beat_q,
     'chord_cmp': _u_chord_cmp,
+    'chord_evaluate': _u_chord_annotations,
+    'chord_segmentation': _u_chord_annotations,
     'event_metrics': _u_event_metrics,
+    'hier_gauc': _u_hier_gauc,
+    'hier_measures': _u_hier_measures,
+    'index_labels': _u_index_labels,
     'key_score': _u_key_score,
     'match_events': _u_match_events,
+    'melody_metrics': _u_melody_metrics,
+    'melody_resample': _u_melody_resample,
     'multipitch_metrics': _u_multipitch_metrics,
     'note_matching': _u_note_matching,
+    'pattern_scores': _u_pattern_scores,
+    'seg_cluster_q': _u_seg_cluster_q,
     'tempo_detection': _u_tempo_detection,
     'transcription_scores': _u_transcription_scores,
+    'weighted_accuracy': _u_weighted_accuracy,
 }
 
 
